@@ -58,7 +58,10 @@ def _matches(entry, prop, ev, clause):
         return False
     # label_after: {"name": "value"} - the label following the marker `name` must equal `value`
     for name, val in m.get("label_after", {}).items():
-        if name not in labels or labels.index(name) + 1 >= len(labels) or labels[labels.index(name) + 1] != val:
+        if name not in labels or labels.index(name) + 1 >= len(labels):
+            return False
+        got = labels[labels.index(name) + 1]
+        if (got not in val) if isinstance(val, list) else (got != val):
             return False
     for path, val in m.get("where", {}).items():
         got = _get(ev, path)
